@@ -56,8 +56,13 @@ Record gen := {
   g_felix_options : list string; g_felix_default : string;
   g_prog_ipip : string -> bool; g_prog_noencap : string -> bool;
   (* felix/calc EncapsulationCalculator *)
-  g_pool_reached : bool -> bool;
+  (* handleModelPool (syncer path): is_delete disabled nat_outgoing disable_bgp_export ipip_mode vxlan_mode -> updatePool is reached *)
+  g_pool_reached : bool -> bool -> bool -> bool -> string -> string -> bool;
   g_pool_ipip : string -> string -> bool; g_pool_vxlan : string -> string -> bool;
+  (* handleAPIPool (start-up path), modes are the v3 API spellings *)
+  g_api_reached : bool -> bool -> bool -> bool -> string -> string -> bool;
+  g_api_ipip : string -> string -> bool; g_api_vxlan : string -> string -> bool;
+  g_api_modes : (string * string * string) * (string * string * string);  (* IPIPMode Never/Always/CrossSubnet, VXLANMode ... *)
   g_ins_ipip : bool -> bool -> bool -> bool;   g_del_ipip : bool -> bool -> bool -> bool;
   g_ins_vxlan : bool -> bool -> bool -> bool;  g_del_vxlan : bool -> bool -> bool -> bool;
   g_ins_vxlan6 : bool -> bool -> bool -> bool; g_del_vxlan6 : bool -> bool -> bool -> bool;
@@ -91,6 +96,8 @@ Record gen := {
   g_bird_uses_ipip : string -> string -> bool; g_bird_uses_vxlan : string -> string -> bool;
   g_bird_programs_pool : bool -> bool -> bool -> bool -> bool;
   g_bird_filter_action : bool -> bool -> bool -> bool -> action;
+  (* processIPPools: is_v4 subnet_ok disabled nat_outgoing disable_bgp_export -> the pool's kernel statement is produced *)
+  g_bird_stmt_produced : bool -> bool -> bool -> bool -> bool -> bool;
   (* design document *)
   g_doc_values : list (string * policy); g_doc_pairings : list (string * string);
   g_doc_felix_default : string; g_doc_bgp_default : string
@@ -104,6 +111,13 @@ Definition mode_strings (g : gen) (m : mode) : string * string :=
   | MIpip => (g_encap_always g, g_encap_never g)
   | MIpipCross => (g_encap_cross g, g_encap_never g)
   | MNone => (g_encap_never g, g_encap_never g)
+  end.
+
+(* the same pool as a v3 IPPool spec (start-up path) *)
+Definition api_mode_strings (g : gen) (m : mode) : string * string :=
+  let '((in_, ia, ic), (vn, va, vc)) := g_api_modes g in
+  match m with
+  | MVxlan => (in_, va) | MVxlanCross => (in_, vc) | MIpip => (ia, vn) | MIpipCross => (ic, vn) | MNone => (in_, vn)
   end.
 
 (* ---- Felix: raw value -> Config.ProgramClusterRoutes.
@@ -126,6 +140,9 @@ Definition felix_resolve (g : gen) (raw : option string) : string :=
 Record world := {
   w_mode : mode;                 (* the pool under consideration *)
   w_v4 : bool;                   (* its address family *)
+  w_disabled : bool;             (* its other attributes: disabled (no NEW allocations), natOutgoing, disableBGPExport *)
+  w_nat : bool; w_nobgp : bool;
+  w_api : bool;                  (* Felix learnt it on the start-up path (handleAPIPool) rather than from the syncer (handleModelPool) *)
   w_others : bool * bool * bool * bool; (* other pools present in ipipPools, vxlanPools, vxlanPoolsv6, noEncapPools *)
   w_ipip_ovr : option bool;      (* deprecated FelixConfiguration overrides IpInIpEnabled / VXLANEnabled *)
   w_vxlan_ovr : option bool;
@@ -144,15 +161,22 @@ Record felix_view := {
 Definition ovr_set (o : option bool) := match o with Some _ => true | None => false end.
 Definition ovr_val (o : option bool) := match o with Some b => b | None => false end.
 
-Definition felix_view_of (g : gen) (pcr : string) (w : world) : felix_view :=
+(* which of ipipPools, vxlanPools, vxlanPoolsv6, noEncapPools of a fresh EncapsulationCalculator hold the pool after it was handled *)
+Definition pool_in_sets (g : gen) (w : world) : bool * bool * bool * bool :=
+  let '(reached, ie, ve) :=
+    if w_api w
+    then let '(im, vm) := api_mode_strings g (w_mode w) in
+         (g_api_reached g false (w_disabled w) (w_nat w) (w_nobgp w) im vm, g_api_ipip g im vm, g_api_vxlan g im vm)
+    else let '(im, vm) := mode_strings g (w_mode w) in
+         (g_pool_reached g false (w_disabled w) (w_nat w) (w_nobgp w) im vm, g_pool_ipip g im vm, g_pool_vxlan g im vm) in
+  let v4 := w_v4 w in
+  (andb reached (g_ins_ipip g ie ve v4), andb reached (g_ins_vxlan g ie ve v4),
+   andb reached (g_ins_vxlan6 g ie ve v4), andb reached (g_ins_noencap g ie ve v4)).
+
+Definition felix_view_core (g : gen) (pcr : string) (sets : bool * bool * bool * bool) (w : world) : felix_view :=
   let pi := g_prog_ipip g pcr in
   let pn := g_prog_noencap g pcr in
-  let '(im, vm) := mode_strings g (w_mode w) in
-  let ie := g_pool_ipip g im vm in
-  let ve := g_pool_vxlan g im vm in
-  let v4 := w_v4 w in
-  let s1 := g_ins_ipip g ie ve v4 in let s2 := g_ins_vxlan g ie ve v4 in
-  let s3 := g_ins_vxlan6 g ie ve v4 in let s4 := g_ins_noencap g ie ve v4 in
+  let '(s1, s2, s3, s4) := sets in
   let '(o1, o2, o3, o4) := w_others w in
   let h1 := orb o1 s1 in let h2 := orb o2 s2 in let h3 := orb o3 s3 in let h4 := orb o4 s4 in
   let c (f : gen -> bool -> bool -> bool -> bool -> bool -> bool -> bool -> bool -> bool -> bool -> bool -> bool) :=
@@ -166,11 +190,14 @@ Definition felix_view_of (g : gen) (pcr : string) (w : world) : felix_view :=
   let m (f : gen -> bool -> bool -> bool -> bool -> bool -> bool -> bool -> bool -> bool) :=
     f g dpi dpn dnn di dv dv6 (w_ipv6 w) (w_bpf w) in
   {| v_prog_ipip := pi; v_prog_noencap := pn;
-     v_in_sets := (s1, s2, s3, s4);
+     v_in_sets := sets;
      v_calc := (c1, c2, c3, c4);
      v_l3rr := g_l3rr g (w_bpf w) (w_wg w) (w_wg6 w) e1 e2 e3 e4 pi pn;
      v_mgrs := (m g_mgr_noencap, m g_mgr_noencap6, m g_mgr_vxlan, m g_mgr_vxlan6, m g_mgr_ipip);
      v_gates := g_ipip_gates g dpi |}.
+
+Definition felix_view_of (g : gen) (pcr : string) (w : world) : felix_view :=
+  felix_view_core g pcr (pool_in_sets g w) w.
 
 (* Felix programs the pool's cluster routes: routes are computed (L3 route resolver exists), the manager
    that owns this kind of route for this family exists, and (IPIP) every use of its route manager is enabled *)
@@ -207,9 +234,14 @@ Definition bird_programs_pool (g : gen) (p : policy) (m : mode) : bool :=
   g_bird_programs_pool g (fst p) (snd p) (g_bird_uses_ipip g im vm) (g_bird_uses_vxlan g im vm).
 
 (* action of the statement processIPPool emits for the kernel-programming filter (forProgrammingKernel = true) *)
-Definition bird_kernel_action (g : gen) (p : policy) (m : mode) : action :=
+Definition bird_kernel_action (g : gen) (p : policy) (m : mode) (nobgp : bool) : action :=
   let '(im, vm) := mode_strings g m in
-  g_bird_filter_action g false true (g_bird_uses_vxlan g im vm) (bird_programs_pool g p m).
+  g_bird_filter_action g nobgp true (g_bird_uses_vxlan g im vm) (bird_programs_pool g p m).
+
+(* processIPPools produces that statement at all (local subnet known) *)
+Definition bird_stmt_produced (g : gen) (w : world) : bool :=
+  g_bird_stmt_produced g (w_v4 w) true (w_disabled w) (w_nat w) (w_nobgp w).
 
 (* BIRD writes the pool's routes to the kernel unless the filter rejects them (the template ends with `accept;`) *)
-Definition bird_programs (g : gen) (p : policy) (m : mode) : bool := action_eqb (bird_kernel_action g p m) Accept.
+Definition bird_programs (g : gen) (p : policy) (w : world) : bool :=
+  if bird_stmt_produced g w then action_eqb (bird_kernel_action g p (w_mode w) (w_nobgp w)) Accept else true.
